@@ -265,6 +265,8 @@ func runC01(c *Check) {
 			c.Decide(len(q) >= 2, "R7", "spynode.(*Node).processBlocks#requests-are-queued", s.Pos(), "must-call", nil, "block requests are queued for sending", "block requests obtained from the window are never queued")
 		}
 	}
+	c.ruleResetEmptiesRequestState("R9")
+	c.ruleConstIndexGuarded("R10", "spynode", "handlers", "state")
 }
 
 func containsBefore(in ssa.Instruction, set []ssa.Instruction) bool {
@@ -544,6 +546,10 @@ func runC08(c *Check) {
 		c.Decide(ok, "R3", fk+"#canonicalisation", fn.Pos(), "shape matching", nil,
 			"20 bytes are taken verbatim, anything else is Hash160'd", "push data is not canonicalised as (len==20 ? verbatim : Hash160): raw-data and hash subscriptions are no longer equivalent / subscribe and unsubscribe disagree")
 	}
+
+	c.ruleCanonOnEveryPath("R3")
+	c.ruleContractScanContinues("R6")
+	c.ruleSubscribeAddsEach("R7", fHashes)
 
 	// ---- R4 who may write
 	nW := 0
